@@ -97,6 +97,32 @@ def cond_sites():
     return out
 
 
+def eq_sites():
+    """every `==` / `!=` of the anchored files that reaches MIR as an Eq/Ne switch or a PartialEq call: flipped"""
+    from sa import mir, tables
+    F = mir.Facts("default")
+    lines = {}
+    for f in lib_fns(F):
+        if f.file.startswith("/") or not DEL_FILES.search(f.file):
+            continue
+        for c in tables.comparisons(f):
+            if c.op in ("Eq", "Ne"):
+                lines.setdefault((f.file, c.stmt.ln), f.short)
+        for b in f.calls_to(r"cmp::PartialEq::(eq|ne)$|cmp::PartialEq<.*>>::(eq|ne)$"):
+            lines.setdefault((f.file, b.term.ln), f.short)
+    out = []
+    for (file, ln), fn in sorted(lines.items()):
+        src = open(os.path.join(REPO, file)).read().split("\n")
+        if not ln or ln > len(src):
+            continue
+        t = src[ln - 1]
+        if re.search(r"assert|tracing|metrics|trace!|^\s*//", t):
+            continue
+        for k, m in enumerate(re.finditer(r"(?<=\s)(==|!=)(?=\s)", t)):
+            out.append({"name": "%s:%d#%d" % (file, ln, k), "file": file, "line": ln, "old": t, "new": t[:m.start()] + ("!=" if m.group(1) == "==" else "==") + t[m.end():], "fn": fn})
+    return out
+
+
 def one_sites():
     """every `+ 1` / `- 1` / `+= 1` / `-= 1` of the library that reaches MIR as an Add/Sub with the constant 1: the 1 becomes 0"""
     from sa import mir
@@ -161,7 +187,7 @@ if __name__ == "__main__":
     jobs = int(sys.argv[2]) if len(sys.argv) > 2 else 2
     for i in range(jobs):
         SLOTS.put(i)          # slot 0 shares /verif/.work/target
-    sites = {"cmp": cmp_sites, "del": del_sites, "one": one_sites, "cond": cond_sites}[kind]()
+    sites = {"cmp": cmp_sites, "del": del_sites, "one": one_sites, "cond": cond_sites, "eq": eq_sites}[kind]()
     if len(sys.argv) > 3 and sys.argv[3].startswith("@"):
         want = set(open(sys.argv[3][1:]).read().split("\n"))
         sites = [s for s in sites if s["name"] in want]
